@@ -459,6 +459,9 @@ def hyp_cases(draw, tier):
 RULE_ROUND8 = ' One generated forest in 20 (60 in the thorough tier) is a BIG one (gen.big_specs: a child list of 11..300 nodes, that many clones of one data object, more than 256 nodes), with node references aimed at notable positions of the long child lists. A third of the string cases hold instances of a str subclass whose str() text differs from the value: the dict form carries str(data), the round trip reproduces that text.'
 RULE = RULE + RULE_ROUND8
 
+RULE_ROUND9 = ' node.from_dict() below a childless node of a populated tree gives what Tree.from_dict() gives; a structure that uses one dict object at two places (leaf clones) is accepted; two trees built from one DictWrapper structure with the library mapper are independent of it and of each other.'
+RULE = RULE + RULE_ROUND9
+
 PARTS = [
     Part("dict-form", run, strategy=lambda tier: hyp_cases(tier), n={"quick": 2000, "thorough": 200000}),
 ]
